@@ -213,6 +213,7 @@ func genC01(seed uint64, idx int) *Plan {
 		}
 		p.Resume = false
 	}
+	p.NoCCS = idx%4 == 1
 	return &Plan{Kind: "live", Seed: seed, Live: p}
 }
 
